@@ -553,7 +553,9 @@ func (x *ExprEnv) funcCall(fn *ssa.Function, recv *tval, argx []ast.Expr) tval {
 	}
 	rt := res.At(0).Type()
 	if e.quant == 0 && e.willInline(fn, 1) && e.spec.contractFor(fn) == nil {
+		saveCur := e.cur
 		rs, _ := e.inlineFn(x.fr, x.st, fn, args, nil, nil, false)
+		e.cur = saveCur
 		if len(rs) == 1 {
 			return tval{t: rs[0], typ: rt}
 		}
